@@ -153,7 +153,7 @@ def ufRun : UF → List String → List String → Option (List String)
       | .err => some (("err" :: acc).reverse)
     | ["g"] =>
       match UF.group u with
-      | .ok g => ufRun u ops (";".intercalate (g.map natList) :: acc)
+      | .ok g => ufRun u ops ((if g.isEmpty then "-" else ";".intercalate (g.map natList)) :: acc)
       | .panic => some (("panic" :: acc).reverse)
       | .err => some (("err" :: acc).reverse)
     | _ => none
